@@ -331,6 +331,8 @@ func CheckC18(tier string) int {
 			{"time=parent+1", true, func() gethtypes.Header { return withTime(n1.Time + 1) }},
 			{"time=parent-1", false, func() gethtypes.Header { return withTime(n1.Time - 1) }},
 			{"time=now+15", true, func() gethtypes.Header { return withTime(nowU + 15) }},
+			{"time=parent+950 (difficulty adjustment clamped at -99)", true, func() gethtypes.Header { return withTime(n1.Time + 950) }},
+			{"valid-child-after-a-clamped-header", true, func() gethtypes.Header { return ethChild(n1, 13, "n2", "2") }},
 			{"time=now+16", false, func() gethtypes.Header { return withTime(nowU + 16) }},
 			{"gas-limit-at-upper-bound", false, func() gethtypes.Header {
 				h := ethChild(n1, 13, "n2", "2")
